@@ -158,7 +158,7 @@ def _receiver_modules(world: World, call: ast.Call):
         t = world.R.expr(ctx, call.func.value)
     except Exception:
         return None
-    mods = {x[1][4:] for x in S.walk(t) if isinstance(x, tuple) and x and x[0] == "mod" and str(x[1]).startswith("ext:")}
+    mods = {x[1][4:] for x in S.walk(t) if isinstance(x, tuple) and x and x[0] in ("mod", "call") and str(x[1]).startswith("ext:")}
     if S.contains(t, lambda x: isinstance(x, tuple) and x and x[0] in ("unk", "p")):
         return mods or None
     return mods or None
